@@ -144,10 +144,10 @@ PROPS = {
     "C01": {
         "propfile": "PropC01.v",
         "n": {"quick": 480, "thorough": 12000},
-        "corr": "policy.PolicyVerifier.VerifyRefFull / VerifyRef / VerifyRefFromEntry vs verify_full / verify_latest / verify_from (World.v)",
-        "rule": 'profile C01 (general histories) + directed replays of K1 and K5. generated worlds in an in-memory Storer with real ed25519 signatures: an initial policy (root key(s), primary rule file with 2-4 developers, 1-3 rules incl. thresholds 1-3, optionally one delegated rule file, optionally global rules), then 4-21 events from: pushes to main/feature/other signed by authorised / unauthorised / admin / no key (12% force pushes, 10% tree-reusing commits), approvals (reference authorizations signed by subsets of developers, some for other changes or stored at other paths) followed by the push, policy updates (valid evolutions: rule changes, root rotation, threshold raises, global rules added/dropped; one third forbidden ones: unsigned / wrongly signed root, forged or rolled-back rule files, dropped or dangling delegated files, self-signed replacement root), skip annotations (mostly on violating pushes), fix pushes (tree-same as the last good state), staging and propagation entries. Each world is verified in full for main and feature, latest-only for main and from a random earlier entry. non-trivial = >=2 policy states or a rejected verification',
-        "theorems": ['C01_sound', 'C01_K1_propagation_entries_unverified', 'C01_K5_fix_entry_unverified'],
-        "trusted": ["symbolic cryptography; developers' keys are disjoint from root/primary-rule-file keys and from each other in generated worlds (shared keys make the Go map iteration order observable)", 'the harness world builder writes policy and attestation commits directly (bypassing Apply, which would refuse the forbidden states) and the in-memory Storer', 'not modelled: tags, file rules (C10), code-review approvals, controller repositories, the persistent cache (C08), hooks', 'error kinds are compared for correspondence; the property is decided on accept/reject and the tip'],
+        "corr": "policy.PolicyVerifier.VerifyRefFull / VerifyRef / VerifyRefFromEntry vs verify_full / verify_latest / verify_from (World.v); VerifyRefFull of tag references vs Tags.verify_full_tags",
+        "rule": 'a fifth of the cases: a tag reference with 1-3 recorded entries (annotated tag objects, or commits for lightweight tags; signed by an authorised principal, another developer or nobody), a rule over refs/tags/* or the tag with threshold 1-3, approvals for tags by subsets of the principals (half of the cases well formed except possibly the last entry), the tag reference moved or not, verified in full. A quarter of the rest: the incident grammar (good pushes, changes of authority, incidents with notes and skip annotations in either order, policy or attestation entries inside the window, fixes to the last / an older / no good state, revoked fixes). The rest: profile C01 (general histories) + directed replays of K1 and K5. generated worlds in an in-memory Storer with real ed25519 signatures: an initial policy (root key(s), primary rule file with 2-4 developers, 1-3 rules incl. thresholds 1-3, optionally one delegated rule file, optionally global rules), then 4-21 events from: pushes to main/feature/other signed by authorised / unauthorised / admin / no key (12% force pushes, 10% tree-reusing commits), approvals (reference authorizations signed by subsets of developers, some for other changes or stored at other paths) followed by the push, policy updates (valid evolutions: rule changes, root rotation, threshold raises, global rules added/dropped; one third forbidden ones: unsigned / wrongly signed root, forged or rolled-back rule files, dropped or dangling delegated files, self-signed replacement root), skip annotations (mostly on violating pushes), fix pushes (tree-same as the last good state), staging and propagation entries. Each world is verified in full for main and feature, latest-only for main and from a random earlier entry. non-trivial = >=2 policy states or a rejected verification',
+        "theorems": ['C01_sound', 'C01_K1_propagation_entries_unverified', 'C01_K5_fix_entry_unverified', 'C01_tag_entries_all_verified', 'C01_tag_entry_meaning'],
+        "trusted": ["symbolic cryptography; developers' keys are disjoint from root/primary-rule-file keys and from each other in generated worlds (shared keys make the Go map iteration order observable)", 'the harness world builder writes policy and attestation commits directly (bypassing Apply, which would refuse the forbidden states) and the in-memory Storer', 'tag references are modelled for histories of one policy state without global rules (Tags.v); not modelled here: file rules (C10), code-review approvals (C09), controller repositories, the persistent cache (C08), hooks', 'error kinds are compared for correspondence; the property is decided on accept/reject and the tip'],
         "assumptions": [],
     },
     "C02": {
